@@ -81,15 +81,24 @@ func (fs *FS) wrapRelPathErr(err error) error {
 		errCopy.Path = strings.TrimPrefix(errCopy.Path, rootedPath)
 		errCopy.Path = strings.ReplaceAll(errCopy.Path, separator, slash)
 		errCopy.Path = strings.TrimPrefix(errCopy.Path, slash)
+		if errCopy.Path == "" {
+			errCopy.Path = "."
+		}
 		err = &errCopy
 	case *os.LinkError:
 		errCopy := &hackpadfs.LinkError{Op: e.Op, Old: e.Old, New: e.New, Err: e.Err}
 		errCopy.Old = strings.TrimPrefix(errCopy.Old, rootedPath)
 		errCopy.Old = strings.ReplaceAll(errCopy.Old, separator, slash)
 		errCopy.Old = strings.TrimPrefix(errCopy.Old, slash)
+		if errCopy.Old == "" {
+			errCopy.Old = "."
+		}
 		errCopy.New = strings.TrimPrefix(errCopy.New, rootedPath)
 		errCopy.New = strings.ReplaceAll(errCopy.New, separator, slash)
 		errCopy.New = strings.TrimPrefix(errCopy.New, slash)
+		if errCopy.New == "" {
+			errCopy.New = "."
+		}
 		err = errCopy
 	}
 	return err
